@@ -3,6 +3,7 @@ mod alloc;
 mod ep;
 mod matrix;
 mod model;
+mod pair;
 mod rng;
 mod runner;
 mod scen;
